@@ -144,6 +144,7 @@ def run_monitors(cfg, items, endl, props=None):
     track_policy = True
     op_since_probe = False
     step = 0
+    fq = [] if kind == "fifo" else None      # fifo: the queue of resident keys, oldest first (None = lost track)
     if endl != "end live0" and want("C08"):
         viol("C08", len(items), "value instances alive after the container was destroyed: %s" % endl)
 
@@ -226,6 +227,39 @@ def run_monitors(cfg, items, endl, props=None):
         pre_found = found(pre) if pre else None
         post_found = found(post) if post else None
         addressed = set()
+        if fq is not None:
+            # C12 on the whole alphabet, range calls included: the calls of a range are single calls in order
+            def fq_ins(k_, a_):
+                if k_ in fq:
+                    return bool(a_ & 2)
+                if a_ & 1:
+                    if len(fq) >= cfg["cap"]:
+                        fq.pop(0)
+                    fq.append(k_)
+                    return True
+                return False
+            if n == "insert":
+                fq_ins(it["k"], it["a"])
+            elif n in ("insert_range", "insert_it"):
+                for (_, k_, _) in it["kvs"]:
+                    fq_ins(k_, it["a"])
+            elif n == "erase":
+                if it["k"] in fq:
+                    fq.remove(it["k"])
+            elif n in ("erase_range", "erase_it"):
+                for k_ in it["keys"]:
+                    if k_ in fq:
+                        fq.remove(k_)
+            elif n == "clear":
+                del fq[:]
+            if post is not None:
+                if set(fq) != post_found:
+                    if n in ("insert", "insert_range", "insert_it"):
+                        viol("C12", i, "after %s the residents are %s; first-in first-out order (a range being its elements in order) leaves %s" % (
+                            n, sorted(post_found), sorted(fq)))
+                    fq = None
+            else:
+                fq = None
         if n == "insert":
             k, v, a = it["k"], it["v"], it["a"]
             b = o == "b1"
